@@ -27,7 +27,7 @@
    (reported as shape agreement, not as a property failure).                                                    *)
 EXTENDS Integers, Sequences, FiniteSets, TLC, Json, SequencesExt
 
-CONSTANTS NH, K, V, MaxOps,      \* as in FiniteMap (K: non-negative integer keys = their hash values)
+CONSTANTS NH, K, V, MaxOps, MapOps,  \* as in FiniteMap (K: non-negative integer keys = their hash values)
           NB0,                   \* bins of a freshly constructed table: HashMap(NB0)
           HeadBug, EqLockstep, AllowSharedRehash
 
@@ -36,7 +36,7 @@ VARIABLES ht,      \* handle -> table id (0: dead)
           ghb, gblk, hist, hz     \* the FiniteMap state run in lock-step (ghost) and the shared history
 vars == <<ht, tab, ghb, gblk, hist, hz>>
 
-FM == INSTANCE FiniteMap WITH hb <- ghb, blk <- gblk, KeepHist <- TRUE, MapOps <- TRUE, SetOps <- FALSE
+FM == INSTANCE FiniteMap WITH hb <- ghb, blk <- gblk, KeepHist <- TRUE, SetOps <- FALSE
 
 H    == 1..NH
 T    == 1..(NH+1)
@@ -192,6 +192,6 @@ Shape == [i \in 1..Len(LiveSeq) |-> LET t == tab'[ht'[LiveSeq[i]]] IN
              [h |-> LiveSeq[i], nb |-> NBins(t), order |-> [j \in 1..Len(Enum(t)) |-> Enum(t)[j].k]]]
 View == <<ht, tab, ghb, gblk, Len(hist), hz>>
 Emit == PrintT(ToJson([hist |-> hist', exp |-> FM!ObsOf(ghb', gblk'), pairs |-> FM!PairsOf(ghb', gblk'),
-                       live |-> FM!LiveEntries(ghb', gblk'), set |-> 0, hz |-> hz',
+                       live |-> FM!LiveEntries(ghb', gblk'), set |-> IF MapOps THEN 0 ELSE 1, hz |-> hz',
                        impl |-> [nb0 |-> NB0, shape |-> Shape]]))
 ===============================================================================
